@@ -110,6 +110,20 @@ def each_batch(run, module, cfgs, size=400000, sims=()):
         raise ToolError("vacuity: only %d behaviours emitted by %s" % (k0, module))
 
 
+def run_batches(run, pid, mc, cfgs, obsmod, nt, desc, build, sims=(), size=300000, keep=2000):
+    """the write/read family one configuration and one slice at a time: build(beh, k0) -> cases; every case is
+    executed and judged; returns a small sample of the observations (plus every long / automatic-zoom one)"""
+    kept = []
+    for beh, k0 in each_batch(run, mc, cfgs, size=size, sims=sims):
+        got = judge(run, pid, obsmod, build(beh, k0), nt, desc)
+        if len(kept) < keep:
+            kept += got[:keep]
+        else:
+            kept += [o for o in got if o.get("long") or o["opts"].get("zmode") == "auto"]
+        del got, beh
+    return kept
+
+
 def emit(run, module, cfgs, min_behaviours=50):
     beh = []
     for cfg in cfgs:
